@@ -101,15 +101,17 @@ type e3Fault struct {
 }
 
 type c17Case struct {
-	Faults  []e3Fault       `json:"faults,omitempty"`
-	Burst   []e3Call        `json:"burst,omitempty"` // client requests issued all at once
-	Collide *c17CollideSpec `json:"collide,omitempty"`
-	CacheX  *c17CacheXSpec  `json:"cachex,omitempty"`
-	I       int             `json:"i"`
-	Call    e3Call          `json:"call"`
-	Keep    bool            `json:"keep,omitempty"`
-	Until   bool            `json:"until,omitempty"`
-	Meta    c17Meta         `json:"meta"`
+	Faults    []e3Fault       `json:"faults,omitempty"`
+	Burst     []e3Call        `json:"burst,omitempty"`       // client requests issued all at once
+	SlowGetMs int             `json:"slow_get_ms,omitempty"` // every datastore read takes this long during the burst, so that the calls overlap
+	BurstRole []string        `json:"burst_role,omitempty"`  // per call of an agent burst: "rightful" | "stranger"
+	Collide   *c17CollideSpec `json:"collide,omitempty"`
+	CacheX    *c17CacheXSpec  `json:"cachex,omitempty"`
+	I         int             `json:"i"`
+	Call      e3Call          `json:"call"`
+	Keep      bool            `json:"keep,omitempty"`
+	Until     bool            `json:"until,omitempty"`
+	Meta      c17Meta         `json:"meta"`
 }
 
 type c17Req struct {
@@ -410,6 +412,43 @@ func c17GenCases(rng *rand.Rand, wd *c17World, keepFrac float64, history bool) {
 			sp.A = e3Call{Module: "default", Method: "GET", Path: url, AEUser: ua, ReqID: fmt.Sprintf("cl-%s-cx%d-a", w, v), NoUID: v == 0}
 			sp.B = e3Call{Module: "default", Method: "GET", Path: url, AEUser: ub, ReqID: fmt.Sprintf("cl-%s-cx%d-b", w, v), NoUID: v == 0}
 			wd.add(&c17Case{CacheX: sp, Meta: c17Meta{Kind: "user-cachex", Endpoint: "client", Ident: []string{"users-without-user-id", "users-with-user-id"}[v], Email: ub}})
+		}
+	}
+
+	// concurrent agent calls for one backend: its rightful agent and strangers at the same moment, while reads of the
+	// backend record take a few milliseconds (a check must never be decided with somebody else's identity)
+	{
+		b := wd.Bs[0]
+		var pend *c17Req
+		for _, rq := range b.Reqs {
+			if !rq.Answered && pend == nil {
+				pend = rq
+			}
+		}
+		strangers := []c17Ident{{"stranger", &e3OAuth{Email: "stranger-" + w + "@sa.example.com"}}, {"derived:drop-1", &e3OAuth{Email: b.Rec.BackendUser[1:]}}, {"oauth-empty-email", &e3OAuth{Email: ""}}}
+		for _, ob := range wd.Bs[1:] {
+			if ob.Rec.BackendUser != b.Rec.BackendUser {
+				strangers = append(strangers, c17Ident{"agent-of-another-backend", &e3OAuth{Email: ob.Rec.BackendUser}})
+			}
+		}
+		for k := 0; k < 3; k++ {
+			c := &c17Case{SlowGetMs: 3, Meta: c17Meta{Kind: "agent-burst", Endpoint: "concurrent", Ident: "rightful-agent-and-strangers-at-once", Named: b.Rec.ID}}
+			for j := 0; j < 16; j++ {
+				var ac *c17Case
+				if j%2 == 0 {
+					ac = wd.agentCall(c17Ident{"agent", &e3OAuth{Email: b.Rec.BackendUser}}, "request", b.Rec.ID, "own", pend.RID, "own-pending", b.Rec.ID)
+					c.BurstRole = append(c.BurstRole, "rightful")
+				} else {
+					ep := []string{"request", "response", "request", "pending"}[(j/2+k)%4]
+					ac = wd.agentCall(strangers[(j/2+k)%len(strangers)], ep, b.Rec.ID, "other", pend.RID, "other-pending", b.Rec.ID)
+					if ep == "pending" {
+						ac.Call.CtxMs = 500
+					}
+					c.BurstRole = append(c.BurstRole, "stranger")
+				}
+				c.Burst = append(c.Burst, ac.Call)
+			}
+			wd.add(c)
 		}
 	}
 
@@ -814,6 +853,8 @@ type c17Result struct {
 		Status   int      `json:"status"`
 		Hung     bool     `json:"hung"`
 		ListedIn []string `json:"listed_in"`
+		Body     string   `json:"body"`
+		Ops      []string `json:"ops"`
 	} `json:"burst"`
 }
 
@@ -1238,6 +1279,50 @@ func (wd *c17World) judge(r *core.Run, c *c17Case, res *c17Result, st *c17State)
 		if answered && (res.AStatus != 200 || res.ABody != sp.AnswerBody) {
 			viol("end-user-did-not-receive-own-backends-response", fmt.Sprintf("backend %q's agent answered %v; its end user got %d %q", sp.BackendA, res.AListed, res.AStatus, core.Trunc(res.ABody, 80)))
 		}
+	case "agent-burst":
+		for i, b := range res.Burst {
+			if i >= len(c.BurstRole) {
+				break
+			}
+			call := c.Burst[i]
+			ep := strings.TrimPrefix(call.Path, "/agent/")
+			who := ""
+			if call.OAuth != nil {
+				who = call.OAuth.Email
+			}
+			if b.Hung {
+				viol("handler-hangs:agent:"+ep, "an agent handler of the burst did not return")
+				continue
+			}
+			if c.BurstRole[i] == "rightful" {
+				if b.Status == 401 || b.Status == 403 {
+					viol("authorised-rejected:"+ep+":concurrent", fmt.Sprintf("%s by the registered agent of backend %q, issued while other callers' checks for the same backend were in flight, was rejected with %d", ep, m.Named, b.Status))
+				}
+				continue
+			}
+			if b.Status != 401 {
+				viol("unauthorised-not-401:"+ep+":concurrent", fmt.Sprintf("%s by %q naming backend %q, issued while the rightful agent's calls were in flight: status %d, want 401", ep, who, m.Named, b.Status))
+			}
+			var muts []string
+			for _, op := range b.Ops {
+				if opMutating(op) {
+					muts = append(muts, op)
+				}
+			}
+			if len(muts) > 0 {
+				viol("unauthorised-mutates:"+ep+":concurrent", fmt.Sprintf("%s by %q naming backend %q made mutating API calls %v", ep, who, m.Named, muts))
+			}
+			tmp := &c17Case{Call: call, Meta: c17Meta{Email: who}}
+			var leaked []string
+			for _, sec := range wd.secrets(tmp) {
+				if mentions(b.Body, sec) {
+					leaked = append(leaked, sec)
+				}
+			}
+			if len(leaked) > 0 {
+				viol("unauthorised-learns:"+ep+":concurrent", fmt.Sprintf("%s by %q naming backend %q was told %v", ep, who, m.Named, leaked))
+			}
+		}
 	case "user-burst":
 		for _, b := range res.Burst {
 			if b.Hung {
@@ -1359,7 +1444,7 @@ func (c *c17Case) class() string {
 
 // C17 — who may act as agent, user and admin.
 func C17(r *core.Run) {
-	r.SetRule("worlds of 1-3 registered backends (distinct/shared agent accounts, per-user/shared end users, plain and exotic IDs, IDs related across a separator (B2 = B1<sep>word for sep in : / | \" space . % \\) with request IDs crafted so that (backend, request ID) read across the separator names another backend's request, pending and answered requests with planted secrets) x caller identity {no OAuth, a token whose account has an empty e-mail address, stranger, OAuth admin that is no agent, each agent} x endpoint {pending, request, response} x named backend {each, unknown, absent} x request ID {pending/answered of each backend, unknown, absent}; admin API {list, add, takeover, garbage, delete, other methods/paths} x {App Engine admin, OAuth admin, plain user, agent, nobody, OAuth accounts with an empty / blank / \",\" e-mail address} with follow-up calls on the resulting state; end users x paths through the client handler (also: owner/other-user alternations and concurrent bursts on private prefixes; two users of different private backends in flight with client-supplied X-Inverting-Proxy-Request-ID / -Backend-ID / -User-ID headers of equal values while only one backend's agent answers - the other user must not receive that answer; the response cache across users with and without a user ID in the Users API); scripted histories (agent works, the same backend ID is registered again for another agent account and end user, old and new agent on every endpoint, former and new end user through the client handler, unregister, original registration restored) and random-order histories, both judged against an evolving model of who is registered; the cross-backend, unknown-ID and unauthorised agent calls repeated with one failing store read each (k-th datastore Get / memcache Get / RunQuery of that handler invocation, or the first two / first three / all datastore Gets, internal error or timeout: acceptance and foreign writes stay forbidden, 4xx/5xx are admissible); every call goes through appengine's handleHTTP and the app's routing closure; class = (kind, endpoint, identity class, named-backend class, request-ID class, history?)")
+	r.SetRule("worlds of 1-3 registered backends (distinct/shared agent accounts, per-user/shared end users, plain and exotic IDs, IDs related across a separator (B2 = B1<sep>word for sep in : / | \" space . % \\) with request IDs crafted so that (backend, request ID) read across the separator names another backend's request, pending and answered requests with planted secrets) x caller identity {no OAuth, a token whose account has an empty e-mail address, stranger, OAuth admin that is no agent, each agent} x endpoint {pending, request, response} x named backend {each, unknown, absent} x request ID {pending/answered of each backend, unknown, absent}; admin API {list, add, takeover, garbage, delete, other methods/paths} x {App Engine admin, OAuth admin, plain user, agent, nobody, OAuth accounts with an empty / blank / \",\" e-mail address} with follow-up calls on the resulting state; end users x paths through the client handler (also: owner/other-user alternations and concurrent bursts on private prefixes; two users of different private backends in flight with client-supplied X-Inverting-Proxy-Request-ID / -Backend-ID / -User-ID headers of equal values while only one backend's agent answers - the other user must not receive that answer; bursts of concurrent agent calls for one backend by its rightful agent and by strangers while datastore reads take a few milliseconds; the response cache across users with and without a user ID in the Users API); scripted histories (agent works, the same backend ID is registered again for another agent account and end user, old and new agent on every endpoint, former and new end user through the client handler, unregister, original registration restored) and random-order histories, both judged against an evolving model of who is registered; the cross-backend, unknown-ID and unauthorised agent calls repeated with one failing store read each (k-th datastore Get / memcache Get / RunQuery of that handler invocation, or the first two / first three / all datastore Gets, internal error or timeout: acceptance and foreign writes stay forbidden, 4xx/5xx are admissible); every call goes through appengine's handleHTTP and the app's routing closure; class = (kind, endpoint, identity class, named-backend class, request-ID class, history?)")
 	r.Assume("/cron/delete is executed but not judged (documented as restricted by app.yaml); an authorised call reading or writing keys in its own backend's namespace that merely contain a caller-supplied foreign request ID is not counted as touching the other backend; status codes for unknown/absent request IDs are only required to be 4xx; client requests are cut short once queued (incoming context cancelled) instead of waiting 30 s")
 	bin := r.MustBuild(e3Build(r))
 	rng := r.Rand("c17")
